@@ -1,6 +1,6 @@
 (* C14 proofs, part 1: byte-level facts, list helpers, WriteControl, and the characterisation
    of advanceFrame against the RFC header parser. *)
-From Verif Require Import Lib.Base Lib.Sx Lib.Utf8 Model.WsRead.
+From Verif Require Import Lib.Base Lib.Sx Lib.Utf8 Model.WsRead Proofs.WsReadUtf8.
 From Verif Require Import Gen.Gen_websocket.
 Open Scope Z_scope.
 
@@ -491,4 +491,359 @@ Proof.
       destruct (rfc_violation (c_server c) (negb (c_final c)) h); [exact T|].
       rewrite T. unfold hdr_state. rewrite S1, S3, S4. f_equal.
       unfold c2. destruct (8 <=? op)%N; reflexivity.
+Qed.
+
+(* ------------------------------------------------------------------ payload helpers *)
+Lemma split_at_take_acc b : forall n acc,
+  split_at n b acc = match take (N.to_nat n) b with Some (p, r) => Some (rev acc ++ p, r) | None => None end.
+Proof.
+  induction b as [|x t IH]; intros n acc; cbn [split_at].
+  - destruct (N.eqb_spec n 0) as [->|Hn].
+    + cbn. rewrite rev'_rev, app_nil_r. reflexivity.
+    + destruct (N.to_nat n) eqn:E; [lia|]. reflexivity.
+  - destruct (N.eqb_spec n 0) as [->|Hn].
+    + cbn. rewrite rev'_rev, app_nil_r. reflexivity.
+    + rewrite IH. replace (N.to_nat n) with (S (N.to_nat (N.pred n))) by lia. cbn [take].
+      destruct (take (N.to_nat (N.pred n)) t) as [[p r]|]; [|reflexivity].
+      cbn [rev]. rewrite <- app_assoc. reflexivity.
+Qed.
+
+Lemma split_at_take n b : split_at n b [] = take (N.to_nat n) b.
+Proof. rewrite split_at_take_acc. destruct (take (N.to_nat n) b) as [[p r]|]; reflexivity. Qed.
+
+Lemma mask_unmask key p : forall pos, mask_bytes key pos p = rfc_unmask key pos p.
+Proof.
+  induction p as [|x t IH]; intros pos; cbn [mask_bytes rfc_unmask]; [reflexivity|].
+  rewrite IH. f_equal. f_equal. f_equal. change 3%N with (N.ones 2). rewrite N.land_ones. reflexivity.
+Qed.
+
+(* ------------------------------------------------------------------ close codes: table vs RFC *)
+Lemma gen_bodies_ok t :
+  websocket_isControl t = Ok (is_control t) /\ websocket_isData t = Ok (is_data t) /\
+  websocket_isValidReceivedCloseCode t = Ok (is_valid_received_close_code t).
+Proof. repeat split. Qed.
+
+Lemma close_code_table code :
+  is_valid_received_close_code (Z.of_N code) = rfc_close_code_ok code.
+Proof.
+  unfold is_valid_received_close_code, websocket_isValidReceivedCloseCode, websocket_validReceivedCloseCodes_map,
+         rfc_close_code_ok.
+  cbn [unres GoSem.map_bool].
+  repeat match goal with
+         | |- context [Z.of_N code =? ?k] =>
+             let E := fresh "E" in
+             destruct (Z.eqb_spec (Z.of_N code) k) as [E|E];
+             [ (let v := eval vm_compute in (Z.to_N k) in assert (code = v) as -> by lia); vm_compute; reflexivity | ]
+         end.
+  cbn [orb].
+  apply Bool.eq_true_iff_eq.
+  rewrite ?orb_true_iff, ?andb_true_iff, ?Z.leb_le, ?Z.geb_le, ?N.leb_le. lia.
+Qed.
+
+(* what a frame that passed the header rules looks like *)
+Lemma viol_false_inv server is_open h : rfc_violation server is_open h = false ->
+  f_masked h = server /\
+  ((f_op h <= 2)%N \/ ((8 <= f_op h <= 10)%N /\ f_fin h = true /\ (f_len h <= 125)%N /\ f_ext h = false)) /\
+  (f_op h = 0%N -> is_open = true) /\ (f_op h = 1%N \/ f_op h = 2%N -> is_open = false).
+Proof.
+  unfold rfc_violation. intros H.
+  repeat (apply orb_false_iff in H; destruct H as [H ?]).
+  apply negb_false_iff in H. apply N.eqb_eq in H.
+  repeat match goal with Hx : negb _ = false |- _ => apply negb_false_iff in Hx end.
+  match goal with Hx : Bool.eqb _ _ = true |- _ => apply Bool.eqb_prop in Hx; rename Hx into Hm end.
+  split; [exact Hm|].
+  repeat match goal with Hx : (_ && _) = false |- _ => apply andb_false_iff in Hx end.
+  repeat match goal with Hx : (_ || _) = false |- _ => apply orb_false_iff in Hx; destruct Hx end.
+  repeat match goal with
+         | Hx : _ \/ _ |- _ => destruct Hx
+         | Hx : negb _ = false |- _ => apply negb_false_iff in Hx
+         | Hx : negb _ = true |- _ => apply negb_true_iff in Hx
+         | Hx : (_ || _) = false |- _ => apply orb_false_iff in Hx; destruct Hx
+         | Hx : (_ <=? _)%N = false |- _ => apply N.leb_gt in Hx
+         | Hx : (_ <=? _)%N = true |- _ => apply N.leb_le in Hx
+         | Hx : (_ <? _)%N = false |- _ => apply N.ltb_ge in Hx
+         | Hx : (_ =? _)%N = false |- _ => apply N.eqb_neq in Hx
+         | Hx : (_ =? _)%N = true |- _ => apply N.eqb_eq in Hx
+         end;
+  (split; [|split]);
+    try (left; lia); try (right; repeat split; try assumption; lia);
+    try (intros; subst; try lia; try congruence; auto);
+    try (intros [?|?]; subst; try lia; try congruence; auto).
+Qed.
+
+(* ------------------------------------------------------------------ advanceFrame on a clean state *)
+Record clean (server : bool) (limit : Z) (c : conn) : Prop := mkClean {
+  cl_srv : c_server c = server; cl_lim : c_limit c = limit; cl_err : c_err c = None;
+  cl_w : c_wclosed c = false; cl_rem : c_rem c = 0; cl_len : 0 <= c_len c < 9223372036854775808;
+  cl_wf : wf_bytes (c_in c) }.
+
+Definition ctl_state (c : conn) (h : fhdr) (rest : bytes) (out : list (Z * bytes)) : conn :=
+  mkConn (c_server c) (c_limit c) 0 (c_final c) (c_len c) (c_err c) (c_errcount c)
+         (if f_masked h then f_key h else c_key c) rest out (c_wclosed c).
+
+Definition limit_fail {A} (c : conn) (r : mres A) : Prop :=
+  exists c', r = MErr c' ELimit /\
+    c_out c' = close_frame websocket_CloseMessageTooBig [] :: c_out c /\ c_errcount c' = c_errcount c.
+
+Definition close_fail {A} (c : conn) (p : bytes) (r : mres A) : Prop :=
+  match rfc_close p with
+  | OClosed None _ =>
+    exists c', r = MErr c' (EClose websocket_CloseNoStatusReceived []) /\
+      c_out c' = (websocket_CloseMessage, []) :: c_out c /\ c_errcount c' = c_errcount c
+  | OClosed (Some code) reason =>
+    exists c', r = MErr c' (EClose (Z.of_N code) reason) /\
+      c_out c' = close_frame (Z.of_N code) [] :: c_out c /\ c_errcount c' = c_errcount c
+  | OViolation => proto_fail c r
+  | _ => False
+  end.
+
+Lemma ueof_fail_bind {A B} c (r : mres A) (K : conn -> A -> mres B) : ueof_fail c r -> ueof_fail c (mbind r K).
+Proof. intros (c' & -> & H). exists c'. cbn [mbind]. auto. Qed.
+
+Lemma length_mask key p : forall pos, length (mask_bytes key pos p) = length p.
+Proof. induction p as [|x t IH]; intros pos; cbn [mask_bytes length]; [reflexivity|]. rewrite IH. reflexivity. Qed.
+
+Lemma length_unmask key p : forall pos, length (rfc_unmask key pos p) = length p.
+Proof. intros pos. rewrite <- mask_unmask. apply length_mask. Qed.
+
+Lemma rfc_payload_length h rest p rest' : rfc_payload h rest = Some (p, rest') ->
+  N.of_nat (length p) = f_len h /\ exists q, rest = q ++ rest' /\ length q = length p.
+Proof.
+  unfold rfc_payload. destruct (split_at (f_len h) rest []) as [[q r]|] eqn:E; [|discriminate].
+  intros H. inversion H; subst. apply split_at_nil in E as [E1 E2].
+  split.
+  - destruct (f_masked h); [rewrite length_unmask|]; exact E2.
+  - exists q. split; [exact E1|]. destruct (f_masked h); [rewrite length_unmask|]; reflexivity.
+Qed.
+
+(* step 6: the control payload *)
+Lemma af_control_payload c h rest :
+  f_masked h = c_server c -> (f_len h <= 125)%N ->
+  let hs := hdr_state c h rest in
+  (if 0 <? c_rem hs then
+     match c_readn (Z.to_nat (c_rem hs)) hs with
+     | MOk c p => MOk (set_rem c 0) (if c_server c then mask_bytes (c_key c) 0 p else p)
+     | MErr c e => MErr (set_rem c 0) e
+     | MPanic s => MPanic s
+     end
+   else MOk hs [])
+  = match rfc_payload h rest with
+    | Some (p, rest') => MOk (set_rem (set_in hs rest') 0) p
+    | None => MErr (set_rem (set_in hs []) 0) EUeof
+    end.
+Proof.
+  intros Hm Hl. cbv zeta. unfold rfc_payload. rewrite split_at_take.
+  change (c_rem (hdr_state c h rest)) with (Z.of_N (f_len h)).
+  destruct (N.eqb_spec (f_len h) 0) as [E|E].
+  - rewrite E. cbn [Z.of_N Z.ltb Z.compare N.to_nat take].
+    unfold hdr_state. rewrite E. cbn [Z.of_N set_rem set_in c_server c_limit c_rem c_final c_len c_err c_errcount c_key c_in c_out c_wclosed].
+    destruct (f_masked h); reflexivity.
+  - replace (0 <? Z.of_N (f_len h)) with true by (symmetry; apply Z.ltb_lt; lia).
+    replace (Z.to_nat (Z.of_N (f_len h))) with (N.to_nat (f_len h)) by lia. unfold c_readn. change (WsRead.c_in (hdr_state c h rest)) with rest.
+    destruct (take (N.to_nat (f_len h)) rest) as [[p r]|]; [|reflexivity].
+    cbn [set_in set_rem hdr_state c_server c_key c_limit c_rem c_final c_len c_err c_errcount c_in c_out c_wclosed].
+    rewrite <- Hm. destruct (f_masked h); [rewrite mask_unmask|]; reflexivity.
+Qed.
+
+(* ------------------------------------------------------------------ well-formedness is preserved *)
+Lemma lxor_byte a b : wf_byte a -> wf_byte b -> wf_byte (N.lxor a b).
+Proof.
+  intros Ha Hb.
+  assert (E : range_all 256 (fun a => range_all 256 (fun b => N.lxor a b <? 256)%N) = true) by (vm_compute; reflexivity).
+  pose proof (range_all_spec 256 _ E a ltac:(unfold wf_byte in Ha; lia)) as E1. cbv beta in E1.
+  pose proof (range_all_spec 256 _ E1 b ltac:(unfold wf_byte in Hb; lia)) as E2. cbv beta in E2.
+  apply N.ltb_lt in E2. exact E2.
+Qed.
+
+Lemma wf_nth key i : wf_bytes key -> wf_byte (nth i key 0%N).
+Proof.
+  intros H. destruct (Nat.lt_ge_cases i (length key)) as [Hi|Hi].
+  - unfold wf_bytes in H. rewrite Forall_forall in H. apply H. apply nth_In. exact Hi.
+  - rewrite nth_overflow by exact Hi. unfold wf_byte. lia.
+Qed.
+
+Lemma wf_unmask key p : wf_bytes key -> wf_bytes p -> forall pos, wf_bytes (rfc_unmask key pos p).
+Proof.
+  intros Hk Hp. induction Hp as [|x t Hx Ht IH]; intros pos; cbn [rfc_unmask]; constructor.
+  - apply lxor_byte; [exact Hx|apply wf_nth; exact Hk].
+  - apply IH.
+Qed.
+
+Lemma take_wf n b p r : take n b = Some (p, r) -> wf_bytes b -> wf_bytes p /\ wf_bytes r /\ length b = (n + length r)%nat.
+Proof.
+  intros H Hwf. apply take_app in H as [-> L]. apply wf_app in Hwf as [H1 H2].
+  rewrite app_length. auto.
+Qed.
+
+Lemma hdr_parse_rest fin rsv op masked l7 r : wf_bytes r -> (l7 < 128)%N ->
+  match hdr_parse fin rsv op masked l7 r with
+  | HOk h rest => wf_bytes (f_key h) /\ wf_bytes rest /\ (length rest <= length r)%nat /\ (f_len h < two63)%N
+  | _ => True
+  end.
+Proof.
+  intros Hwf Hl7. unfold hdr_parse.
+  assert (K : forall ext len r1, wf_bytes r1 -> (length r1 <= length r)%nat -> (len < two63)%N ->
+    match (if masked then match take 4 r1 with Some (k, r') => HOk (mkHdr fin rsv op masked ext len k) r' | None => HCut end
+           else HOk (mkHdr fin rsv op masked ext len []) r1) with
+    | HOk h rest => wf_bytes (f_key h) /\ wf_bytes rest /\ (length rest <= length r)%nat /\ (f_len h < two63)%N
+    | _ => True
+    end).
+  { intros ext len r1 Hw1 Hl1 Hlen. destruct masked.
+    - destruct (take 4 r1) as [[k r']|] eqn:E; [|exact I]. destruct (take_wf _ _ _ _ E Hw1) as (A & B & C).
+      cbn [f_key f_len]. repeat split; auto. lia.
+    - cbn [f_key f_len]. repeat split; auto. constructor. }
+  destruct (l7 <? 126)%N; [apply K; auto; unfold two63; lia|].
+  destruct (l7 =? 126)%N.
+  - destruct (take 2 r) as [[l r1]|] eqn:E; [|exact I]. destruct (take_wf _ _ _ _ E Hwf) as (A & B & C). apply K; auto; [lia|].
+    pose proof (be_val_bound l A) as Hb. apply take_app in E as [_ L]. rewrite L in Hb.
+    change (256 ^ N.of_nat 2)%N with 65536%N in Hb. unfold two63. lia.
+  - destruct (take 8 r) as [[l r1]|] eqn:E; [|exact I]. destruct (take_wf _ _ _ _ E Hwf) as (A & B & C).
+    destruct (N.leb_spec two63 (be_val l)); [exact I|]. apply K; auto. lia.
+Qed.
+
+Lemma rfc_header_rest bs h rest : wf_bytes bs -> rfc_header bs = HOk h rest ->
+  wf_bytes (f_key h) /\ wf_bytes rest /\ (length rest + 2 <= length bs)%nat /\ (f_len h < two63)%N.
+Proof.
+  intros Hwf H. destruct bs as [|p0 [|p1 r]]; try discriminate.
+  rewrite rfc_header_cons in H. inversion Hwf as [|? ? _ Hw1]; subst. inversion Hw1 as [|? ? _ Hwr]; subst.
+  pose proof (hdr_parse_rest (p0 / 128 =? 1)%N ((p0 / 16) mod 8)%N (p0 mod 16)%N (p1 / 128 =? 1)%N (p1 mod 128)%N r Hwr
+                ltac:(apply N.mod_lt; lia)) as P.
+  rewrite H in P. destruct P as (A & B & C & D). cbn [length]. repeat split; auto. lia.
+Qed.
+
+Lemma rfc_payload_rest h rest p rest' : wf_bytes (f_key h) -> wf_bytes rest -> rfc_payload h rest = Some (p, rest') ->
+  wf_bytes p /\ wf_bytes rest' /\ (length rest' <= length rest)%nat.
+Proof.
+  intros Hk Hw. unfold rfc_payload. destruct (split_at (f_len h) rest []) as [[q r]|] eqn:E; [|discriminate].
+  intros H. inversion H; subst. apply split_at_nil in E as [-> _]. apply wf_app in Hw as [Hq Hr].
+  rewrite app_length. repeat split; auto; [|lia]. destruct (f_masked h); [apply wf_unmask|]; auto.
+Qed.
+
+Lemma write_control_ok t data c : is_control t = true -> (length data <= 125)%nat -> c_wclosed c = false ->
+  write_control t data c = (set_out c ((t, data) :: c_out c) (t =? websocket_CloseMessage), 0%N).
+Proof.
+  intros Ht Hd Hw. unfold write_control. rewrite Ht, Hw. cbn [negb].
+  rewrite lenN_length. change websocket_maxControlFramePayloadSize with 125.
+  replace (125 <? Z.of_N (N.of_nat (length data))) with false by (symmetry; apply Z.ltb_ge; lia). reflexivity.
+Qed.
+
+Lemma advance_frame_spec server limit c : clean server limit c -> limit < 9223372036854775808 ->
+  match rfc_header (c_in c) with
+  | HEnd => ueof_fail c (advance_frame true c)
+  | HCut => ueof_fail c (advance_frame true c) \/ proto_fail c (advance_frame true c)
+  | HBadLen => proto_fail c (advance_frame true c)
+  | HOk h rest =>
+    if rfc_violation server (negb (c_final c)) h then proto_fail c (advance_frame true c)
+    else if (8 <=? f_op h)%N then
+      match rfc_payload h rest with
+      | None => ueof_fail c (advance_frame true c)
+      | Some (p, rest') =>
+        if (f_op h =? 9)%N
+        then advance_frame true c = MOk (ctl_state c h rest' ((websocket_PongMessage, p) :: c_out c)) websocket_PingMessage
+        else if (f_op h =? 10)%N
+        then advance_frame true c = MOk (ctl_state c h rest' (c_out c)) websocket_PongMessage
+        else close_fail c p (advance_frame true c)
+      end
+    else
+      if (rfc_cap limit <? Z.to_N (c_len c) + f_len h)%N then limit_fail c (advance_frame true c)
+      else advance_frame true c = MOk (set_len (hdr_state c h rest) (c_len c + Z.of_N (f_len h))) (Z.of_N (f_op h))
+  end.
+Proof.
+  intros [Hsrv Hlim Herr Hw Hrem Hlen Hwf] Hl63. rewrite advance_frame_split.
+  unfold af_skip. rewrite Hrem. cbn [Z.ltb Z.compare mbind].
+  pose proof (af_header_spec c Hw Hwf) as H. rewrite Hsrv in H.
+  destruct (rfc_header (WsRead.c_in c)) as [| | |h rest] eqn:Eh.
+  - apply ueof_fail_bind. exact H.
+  - destruct H as [H|H]; [left; apply ueof_fail_bind|right; apply proto_fail_bind]; exact H.
+  - apply proto_fail_bind. exact H.
+  - destruct (rfc_violation server (negb (c_final c)) h) eqn:Hv; [apply proto_fail_bind; exact H|].
+    rewrite H. cbn [mbind]. clear H.
+    destruct (viol_false_inv _ _ _ Hv) as (Vm & Vop & Vz & Vd).
+    destruct (N.leb_spec 8 (f_op h)) as [H8|H8].
+    2: destruct (rfc_header_rest _ _ _ Hwf Eh) as (_ & _ & _ & Hl63h).
+    + (* control frame *)
+      destruct Vop as [Vop|(Vop & Vfin & Vlen & Vext)]; [lia|].
+      replace ((Z.of_N (f_op h) =? websocket_continuationFrame) || (Z.of_N (f_op h) =? websocket_TextMessage)
+               || (Z.of_N (f_op h) =? websocket_BinaryMessage)) with false
+        by (symmetry; unfold websocket_continuationFrame, websocket_TextMessage, websocket_BinaryMessage;
+            rewrite !orb_false_iff; repeat split; apply Z.eqb_neq; lia).
+      unfold af_control. rewrite (af_control_payload c h rest) by (rewrite ?Hsrv; auto).
+      destruct (rfc_payload h rest) as [[p rest']|] eqn:Ep.
+      2:{ cbn [mbind]. eexists. split; [reflexivity|]. cbn. auto. }
+      cbn [mbind]. destruct (rfc_header_rest _ _ _ Hwf Eh) as (Hwk & Hwr & _ & Hl63h).
+      destruct (rfc_payload_rest _ _ _ _ Hwk Hwr Ep) as (Hwp & _ & _).
+      apply rfc_payload_length in Ep as [Lp _].
+      assert (Hp125 : (length p <= 125)%nat) by lia.
+      assert (Hop : f_op h = 8%N \/ f_op h = 9%N \/ f_op h = 10%N) by lia.
+      destruct Hop as [Hop|[Hop|Hop]]; rewrite Hop; cbn [N.eqb Pos.eqb Z.of_N].
+      * (* close *)
+        replace (8 =? websocket_PongMessage) with false by reflexivity.
+        replace (8 =? websocket_PingMessage) with false by reflexivity.
+        replace (8 =? websocket_CloseMessage) with true by reflexivity.
+        unfold close_fail, rfc_close.
+        set (cs := set_rem (set_in (hdr_state c h rest) rest') 0).
+        assert (Hcw : c_wclosed cs = false) by exact Hw.
+        destruct p as [|b0 [|b1 text]].
+        -- eexists. split; [reflexivity|]. unfold handle_close.
+           replace (websocket_CloseNoStatusReceived =? websocket_CloseNoStatusReceived) with true by reflexivity.
+           rewrite write_control_ok by (auto; cbn; lia). cbn. auto.
+        -- eexists. split; [reflexivity|]. unfold handle_close.
+           replace (websocket_CloseNoStatusReceived =? websocket_CloseNoStatusReceived) with true by reflexivity.
+           rewrite write_control_ok by (auto; cbn; lia). cbn. auto.
+        -- replace (be_val [b0; b1]) with (b0 * 256 + b1)%N by (unfold be_val; cbn [be_val_acc]; lia).
+           rewrite close_code_table.
+           destruct (rfc_close_code_ok (b0 * 256 + b1)) eqn:Ecode; cbn [negb andb].
+           2:{ apply hpe_fail; auto. cbn. lia. }
+           assert (Hwt : wf_bytes text).
+           { inversion Hwp as [|? ? _ Hw1]; subst. inversion Hw1; subst. assumption. }
+           rewrite (utf8_valid_spec text Hwt).
+           destruct (utf8_spec text); cbn [negb].
+           2:{ apply hpe_fail; auto. cbn. lia. }
+           eexists. split; [reflexivity|]. unfold handle_close.
+           replace (Z.of_N (b0 * 256 + b1) =? websocket_CloseNoStatusReceived) with false.
+           2:{ symmetry. apply Z.eqb_neq. unfold websocket_CloseNoStatusReceived. unfold rfc_close_code_ok in Ecode.
+               rewrite !orb_true_iff, !andb_true_iff, !N.leb_le in Ecode. lia. }
+           rewrite write_control_ok by (auto; rewrite length_format_close; cbn; lia). cbn. auto.
+      * (* ping *)
+        replace (9 =? websocket_PongMessage) with false by reflexivity.
+        replace (9 =? websocket_PingMessage) with true by reflexivity.
+        unfold handle_ping. rewrite write_control_ok by (auto).
+        cbn [N.eqb]. unfold ctl_state, hdr_state. rewrite Hop.
+        replace (8 <=? 9)%N with true by reflexivity. rewrite Hw. reflexivity.
+      * (* pong *)
+        replace (10 =? websocket_PongMessage) with true by reflexivity.
+        unfold ctl_state, hdr_state. rewrite Hop.
+        replace (8 <=? 10)%N with true by reflexivity. reflexivity.
+    + (* data frame *)
+      destruct Vop as [Vop|(Vop & _)]; [|lia].
+      replace ((Z.of_N (f_op h) =? websocket_continuationFrame) || (Z.of_N (f_op h) =? websocket_TextMessage)
+               || (Z.of_N (f_op h) =? websocket_BinaryMessage)) with true.
+      2:{ symmetry. unfold websocket_continuationFrame, websocket_TextMessage, websocket_BinaryMessage.
+          rewrite !orb_true_iff, !Z.eqb_eq. lia. }
+      unfold af_data.
+      change (c_len (hdr_state c h rest)) with (c_len c). change (c_rem (hdr_state c h rest)) with (Z.of_N (f_len h)).
+      cbn [andb].
+      change (c_len (set_len (hdr_state c h rest) (zi64 (c_len c + Z.of_N (f_len h))))) with (zi64 (c_len c + Z.of_N (f_len h))).
+      change (c_limit (set_len (hdr_state c h rest) (zi64 (c_len c + Z.of_N (f_len h))))) with (c_limit c).
+      rewrite Hlim. unfold rfc_cap, two63 in *.
+      assert (Hsum : c_len c + Z.of_N (f_len h) < 9223372036854775808 \/
+                     9223372036854775808 <= c_len c + Z.of_N (f_len h) < 18446744073709551616) by lia.
+      destruct Hsum as [Hsum|Hsum].
+      * rewrite zi64_small by lia.
+        replace (c_len c + Z.of_N (f_len h) <? 0) with false by (symmetry; apply Z.ltb_ge; lia). cbn [orb].
+        destruct (Z.ltb_spec 0 limit) as [Hl0|Hl0]; cbn [andb].
+        -- destruct (Z.ltb_spec limit (c_len c + Z.of_N (f_len h))) as [Ho|Ho].
+           ++ replace (Z.to_N limit <? Z.to_N (c_len c) + f_len h)%N with true by (symmetry; apply N.ltb_lt; lia).
+              rewrite write_control_ok by (auto; rewrite ?length_format_close; cbn; lia).
+              eexists. split; [reflexivity|]. cbn. auto.
+           ++ replace (Z.to_N limit <? Z.to_N (c_len c) + f_len h)%N with false by (symmetry; apply N.ltb_ge; lia).
+              reflexivity.
+        -- replace (9223372036854775808 - 1 <? Z.to_N (c_len c) + f_len h)%N with false by (symmetry; apply N.ltb_ge; lia).
+           reflexivity.
+      * pose proof (zi64_big _ Hsum) as Hneg.
+        replace (zi64 (c_len c + Z.of_N (f_len h)) <? 0) with true by (symmetry; apply Z.ltb_lt; lia). cbn [orb].
+        replace ((if (0 <? limit)%Z then Z.to_N limit else 9223372036854775808 - 1) <? Z.to_N (c_len c) + f_len h)%N with true.
+        2:{ symmetry. apply N.ltb_lt. destruct (0 <? limit); lia. }
+        rewrite write_control_ok by (auto; rewrite ?length_format_close; cbn; lia).
+        eexists. split; [reflexivity|]. cbn. auto.
 Qed.
